@@ -86,11 +86,10 @@ func runC19(c *Ctx) {
 	// the library's names
 	rot := m.Func("internal/counter", "file.rotate1")
 	okRot := false
-	for _, cs := range callsIn(rot, "fmt.Sprintf") {
-		f, _ := constOf(argsOf(cs)[0])
-		if strings.HasSuffix(f, ".%s.count") {
-			d := describeArg(cs, 1)
-			okRot = strings.HasSuffix(strings.TrimSuffix(d, "]"), fmt.Sprintf("%q", fileVersion))
+	for _, v := range builtStrings(rot) {
+		// … + "." + FileVersion + ".count", however it is put together
+		if strings.HasSuffix(describe(v), fmt.Sprintf(` + ".") + %q) + ".count")`, fileVersion)) {
+			okRot = true
 		}
 	}
 	r.Check("C19.suffix-agreement", "rotate1/counter file suffix", m.Pos(rot.Pos()), okRot, "counter files are named …%s.<FileVersion>.count")
@@ -330,6 +329,9 @@ func suffixGuard(v ssa.Value, seen map[ssa.Value]bool) bool {
 		return true // a cycle adds no new way of becoming true
 	}
 	seen[v] = true
+	if kind, sv, _, ok := affixTest(v); ok && kind == "HasSuffix" {
+		return isEntryName(sv) // the library call or the hand-written tail comparison
+	}
 	switch x := v.(type) {
 	case *ssa.Call:
 		if calleeName(&x.Call) == "strings.HasSuffix" {
